@@ -225,7 +225,21 @@ pub fn config_text(s: &ServerSpec) -> String {
     if rng.chance(1, 3) {
         out.push_str("# roughenough configuration\n");
     }
-    for (k, v) in &lines {
+    // one file in five carries a long comment (a licence header, operator's notes): a file of
+    // more than 4, 8 or 64 KiB, placed before, between or after the keys
+    let long_at = if rng.chance(1, 5) { Some(rng.below(lines.len() as u64 + 1) as usize) } else { None };
+    let long_len = *rng.pick(&[4_200usize, 9_000, 70_000]);
+    let long_comment = |out: &mut String| {
+        let mut n = 0;
+        while n < long_len {
+            out.push_str("# ------------------------------------------------------------------------------\n");
+            n += 81;
+        }
+    };
+    for (i, (k, v)) in lines.iter().enumerate() {
+        if long_at == Some(i) {
+            long_comment(&mut out);
+        }
         if rng.chance(1, 8) {
             out.push_str("\n");
         }
@@ -234,6 +248,9 @@ pub fn config_text(s: &ServerSpec) -> String {
         } else {
             out.push_str(&format!("{}: {}\n", k, v));
         }
+    }
+    if long_at == Some(lines.len()) {
+        long_comment(&mut out);
     }
     out
 }
@@ -1102,7 +1119,11 @@ pub fn run(plan: &Plan, tape: dsim::Tape) -> RunOut {
                     if let Some(p) = p {
                         let h = dsim::with(|w| w.signal(p, sig));
                         if let Some(h) = h {
-                            h();
+                            // the handler runs on a thread of its own, as with the real crate: it
+                            // may sleep, block or end the process
+                            dsim::with(|w| {
+                                w.new_task(p, "ctrl-c", false, Box::new(move || h()));
+                            });
                         }
                     }
                 })
@@ -1113,7 +1134,11 @@ pub fn run(plan: &Plan, tape: dsim::Tape) -> RunOut {
                     if let Some(p) = p {
                         let h = dsim::with(|w| w.signal(p, sig));
                         if let Some(h) = h {
-                            h();
+                            // the handler runs on a thread of its own, as with the real crate: it
+                            // may sleep, block or end the process
+                            dsim::with(|w| {
+                                w.new_task(p, "ctrl-c", false, Box::new(move || h()));
+                            });
                         }
                     }
                 })
